@@ -258,11 +258,17 @@ func (bs *BlindSignature) fromBytes(bytes []byte, c *math.Curve) error {
 	bs.a = make([]*math.G1, len(rbs.A))
 	for i := 0; i < len(rbs.A); i++ {
 		bs.a[i], err = c.NewG1FromBytes(rbs.A[i])
+		if err != nil {
+			return err
+		}
 	}
 
 	bs.b = make([]*math.G1, len(rbs.B))
 	for i := 0; i < len(rbs.B); i++ {
 		bs.b[i], err = c.NewG1FromBytes(rbs.B[i])
+		if err != nil {
+			return err
+		}
 	}
 
 	return nil
@@ -374,6 +380,15 @@ func SignBlindSignature(pp *PP, σ BlindSignature, sk SK) (*Signature, error) {
 	cm.Add(pp.gs[len(pp.gs)-1].Mul(mPrime))
 
 	h := pp.c.HashToG1(cm.Bytes())
+
+	n := len(pp.gs)
+	if len(σ.a) != n || len(σ.b) != n || len(σ.ξ.x) != n || len(σ.ξ.y) != n || len(σ.ξ.d) != n || len(σ.ξ.f) != n {
+		return nil, fmt.Errorf("blind signature request is not of message length %d", n)
+	}
+
+	if len(sk.ys) != n {
+		return nil, fmt.Errorf("secret key is not of message length %d", n)
+	}
 
 	// Verify blind signature is well formed
 	err := σ.ξ.Verify(pp.c, len(pp.gs), σ.a, σ.b, cm, pp.g, pp.g0, h, σ.u, pp.gs)
